@@ -16,6 +16,7 @@ import sys
 SYSCALLS = "mkdir,mkdirat,openat,write,pwrite64,writev,pwritev,unlink,unlinkat,rmdir,rename,renameat,renameat2,ftruncate,truncate"
 MUTATING_OPEN = re.compile(r"O_WRONLY|O_RDWR|O_CREAT|O_TRUNC|O_APPEND")
 LINE = re.compile(r"^(\d+)\s+(\w+)\((.*)$")
+RESUMED = re.compile(r"^(\d+)\s+<\.\.\. (\w+) resumed>(.*)$")
 WL = os.path.join(os.path.dirname(os.path.abspath(__file__)), "crash_wl.py")
 PY = sys.executable
 
@@ -30,12 +31,23 @@ def _strace(args, out, extra=()):
 
 
 def _parse(path):
+    """-> list of (pid, name, rest); an '<unfinished ...>' line is merged with its '<... resumed>' line."""
     ops = []
+    open_calls = {}
     for line in open(path, errors="replace"):
         m = LINE.match(line)
         if m:
-            ops.append((m.group(2), m.group(3).rstrip()))
-    return ops
+            pid, name, rest = m.group(1), m.group(2), m.group(3).rstrip()
+            if rest.endswith("<unfinished ...>"):
+                open_calls[(pid, name)] = len(ops)
+                rest = rest[: -len("<unfinished ...>")].rstrip()
+            ops.append([pid, name, rest])
+            continue
+        m = RESUMED.match(line)
+        if m and (m.group(1), m.group(2)) in open_calls:
+            i = open_calls.pop((m.group(1), m.group(2)))
+            ops[i][2] += m.group(3).rstrip()
+    return [tuple(o) for o in ops]
 
 
 def setup(workload, base):
@@ -68,11 +80,15 @@ def record(workload, base, scratch):
         raise HarnessError(f"filtered recording of {workload} failed: {p.stderr[-1500:]}")
     ops = []
     counts = {}
-    for name, rest in _parse(rec2):
-        counts[name] = counts.get(name, 0) + 1
+    pids = []
+    for pid, name, rest in _parse(rec2):
+        if pid not in pids:
+            pids.append(pid)
+        counts[(pid, name)] = counts.get((pid, name), 0) + 1
         failed = re.search(r"= -1 E", rest) is not None
         mutating = (name != "openat" or MUTATING_OPEN.search(rest)) and not failed
-        ops.append(dict(name=name, ordinal=counts[name], text=f"{name}({rest}"[:200], mutating=bool(mutating)))
+        ops.append(dict(name=name, ordinal=counts[(pid, name)], text=f"{name}({rest}"[:200], mutating=bool(mutating),
+                        proc=pids.index(pid)))
     shutil.rmtree(base)
     shutil.copytree(snap, base, symlinks=True)
     rel = [os.path.relpath(q, base) for q in paths]
@@ -87,17 +103,16 @@ def inject(workload, base, rel_paths, op, scratch):
         extra += ["-P", os.path.normpath(os.path.join(base, q))]
     p = _strace([workload, "work", base], out, extra)
     lines = open(out, errors="replace").read().splitlines()
-    killed = p.returncode in (137, -9)
-    # the call that was entered but never executed: "<call>(args) = ?" or, with -f, an "<unfinished ...>" line
-    # followed by "<... call resumed>) = ?"
+    # the tracee that was killed, and the call it had entered ("name(args) = ?" or "name(args <unfinished ...>")
+    victims = [m.group(1) for l in lines if (m := re.match(r"^(\d+)\s+\+\+\+ killed by SIGKILL", l))]
     last = ""
     for l in reversed(lines):
-        if re.search(r"\s" + re.escape(op["name"]) + r"\(", l) and ("= ?" in l or "<unfinished" in l):
+        m = LINE.match(l)
+        if m and m.group(1) in victims and m.group(2) == op["name"] and ("= ?" in l or "<unfinished" in l):
             last = l
             break
-        if "resumed>" in l or "+++" in l or "---" in l:
-            continue
-        break
-    same_call = bool(last) and any("= ?" in l for l in lines[-3:])
-    return dict(rc=p.returncode, killed=killed, matched=killed and same_call,
-                tail=last.replace(" <unfinished ...>", " = ?").strip()[:200])
+    # sequential workloads: the traced interpreter itself dies (status 137); parallel ones: a child is killed and the
+    # parent ends with an error of its own
+    killed = bool(victims) and (p.returncode in (137, -9) or op.get("proc", 0) > 0)
+    return dict(rc=p.returncode, killed=killed, matched=killed and bool(last),
+                tail=last.replace(" <unfinished ...>", " = ?").strip()[:200], victims=len(victims))
